@@ -10,15 +10,22 @@ Res(r) == [err |-> r.err, val |-> [q \in 1..Len(r.val) |-> r.val[q]]]
 Same(r, x) == r.err = x.err /\ Len(r.val) = Len(x.val) /\ \A q \in 1..Len(r.val) : r.val[q] = x.val[q]
 Grid == IF Len(Rec.grid) = 0 THEN NoGrid ELSE T3(Rec.grid)
 N == T3(Rec.n)
+(* Property clauses (representation-free: any exception class, any order of the selection, any copy of a repeated point).
+   Clauses whose name starts with info_ compare with the transcription of today's code (exception class, order of the
+   indices, behaviour of get_mp_grid on lists that are not meshes); they are reported as information, never as violation *)
+GridOK == Grid = NoGrid \/ (Grid[1] >= 1 /\ Grid[2] >= 1 /\ Grid[3] >= 1)
+LcmT == LET L == LcmGrid(Pts, Rec.DEN) IN << L[1], L[2], L[3] >>
+Defined == IF Grid = NoGrid THEN IsSomeMesh(Pts, Rec.DEN) ELSE SelectionDefined(Pts, Grid, Rec.DEN)
 Clauses ==
-   [ in_model   |-> Representable(Pts, Rec.DEN),
-     mp_equals_spec   |-> Same(Res(Rec.mp), GetMpGrid(Pts, Rec.DEN)),
-     gfk_equals_spec  |-> Same(Res(Rec.gfk), GridFromKpoints(Pts, Grid, Rec.DEN)),
-     complete_detected |-> (Rec.kind \in {"complete", "dup"}) => (Same(Res(Rec.mp), Ok(N)) /\
-                              (Grid = NoGrid => Same(Res(Rec.gfk), Ok(N)))),
-     each_point_once  |-> (Rec.kind \in {"complete", "dup"} /\ Grid # NoGrid) =>
-                              (Rec.gfk.err = "" /\ EachMeshPointOnce(Res(Rec.gfk).val, Pts, Grid, Rec.DEN)),
-     incomplete_rejected |-> (Rec.kind = "removed" /\ Grid = N) => Rec.gfk.err = "ValueError" ]
+   [ in_model   |-> Representable(Pts, Rec.DEN) /\ GridOK,
+     status_is_property |-> (Rec.gfk.err = "") = Defined,
+     detected_grid |-> (Rec.gfk.err = "" /\ Grid = NoGrid) => Same(Res(Rec.gfk), Ok(LcmT)),
+     each_point_once  |-> (Rec.gfk.err = "" /\ Grid # NoGrid) => EachMeshPointOnce(Res(Rec.gfk).val, Pts, Grid, Rec.DEN),
+     complete_detected |-> (NoDuplicates(Pts) /\ IsSomeMesh(Pts, Rec.DEN)) => Same(Res(Rec.mp), Ok(LcmT)),
+     kind_consistent |-> /\ (Rec.kind \in {"complete", "dup"} => (IsSomeMesh(Pts, Rec.DEN) /\ LcmT = N))
+                         /\ (Rec.kind = "removed" => ~SelectionDefined(Pts, N, Rec.DEN)),
+     info_mp_equals_spec   |-> Same(Res(Rec.mp), GetMpGrid(Pts, Rec.DEN)),
+     info_gfk_equals_spec  |-> Same(Res(Rec.gfk), GridFromKpoints(Pts, Grid, Rec.DEN)) ]
 Report == \A c \in DOMAIN Clauses : Clauses[c] \/ PrintT(<<"BAD", i, c>>)
 RecInit == i \in 1..Len(Recs)
 RecSpec == RecInit /\ [][UNCHANGED i]_i
